@@ -16,7 +16,7 @@ from ..flow import PathEnum
 from ..fold import try_fold
 from ..model import AnalysisError, Repo, dotted, is_name, norm, walk_shallow
 from ..report import Ledger
-from ..util import arg_for_param, kw, local_defs, paths
+from ..util import end_pos, pos, arg_for_param, kw, local_defs, paths
 
 PROP = "C07"
 LEVEL = "other"
@@ -196,7 +196,7 @@ def run(repo: Repo, L: Ledger, tier: str):
                 return var
             last = None
             for st_ in find.node.body:
-                if st_.lineno >= slices[0].lineno:
+                if pos(st_) >= pos(slices[0]):
                     break
                 if isinstance(st_, ast.Assign) and len(st_.targets) == 1:
                     tg, val = st_.targets[0], st_.value
@@ -213,7 +213,7 @@ def run(repo: Repo, L: Ledger, tier: str):
         lo, hi = origin(lo), origin(hi)
         walks = {}
         for w in walk_shallow(find.node):
-            if isinstance(w, ast.While) and w.lineno < slices[0].lineno:
+            if isinstance(w, ast.While) and pos(w) < pos(slices[0]):
                 t = norm(w.test).replace(" ", "")
                 for var, d in ((lo, 1), (hi, -1)):
                     if var and f"isinstance({rows_txt}[{var}],Gap)" in t:
